@@ -224,6 +224,17 @@ func stableSign(a, b, c Point) Direction {
 	det := -e1.Cross(e2).Dot(op)
 	maxErr := detErrorMultiplier * math.Sqrt(e1.Norm2()*e2.Norm2())
 
+	// When two of the points are closer than about 1e-154 the product of the
+	// squared edge lengths underflows: maxErr is then zero or far too small
+	// while det is rounding noise, so the comparison below would accept the
+	// noise as a definite answer. Leave such inputs to the exact stage.
+	// (math.SmallestNonzeroFloat64 is a denormal; 0x1p-1022 is the smallest
+	// normal value.)
+	const minNoUnderflowError = detErrorMultiplier * 1.4916681462400413e-154 // sqrt(0x1p-1022)
+	if maxErr < minNoUnderflowError {
+		return Indeterminate
+	}
+
 	// If the determinant isn't zero, within maxErr, we know definitively the point ordering.
 	if det > maxErr {
 		return CounterClockwise
